@@ -6,19 +6,19 @@ set -e
 # and a word load through a misaligned pointer is a report although x86 tolerates it).
 CF="-g -fsanitize=address -fno-omit-frame-pointer -I$REPO -I$MC"
 par clang -c -O1 $CF $REPO/igris/util/crc.c -o $BUILD/crc.o
-par clang++ -std=c++17 -c -O1 $CF $VERIF/harness/c17/c17_crc.cpp -o $BUILD/h.o
+par clang++ -std=c++20 -c -O1 $CF $VERIF/harness/c17/c17_crc.cpp -o $BUILD/h.o
 par gcc -c -O0 -funsigned-char $CF -fsanitize=alignment -fno-sanitize-recover=alignment $REPO/igris/util/crc.c -o $BUILD/crc_o0.o
-par g++ -std=c++17 -c -O0 -funsigned-char $CF -fsanitize=alignment -fno-sanitize-recover=alignment -DC17_STRICT_BUILD $VERIF/harness/c17/c17_crc.cpp -o $BUILD/h_o0.o
+par g++ -std=c++20 -c -O0 -funsigned-char $CF -fsanitize=alignment -fno-sanitize-recover=alignment -DC17_STRICT_BUILD $VERIF/harness/c17/c17_crc.cpp -o $BUILD/h_o0.o
 # third build of crc.c: optimised for size (-Os defines __OPTIMIZE_SIZE__; embedded builds are usually -Os, and
 # code selected by that macro or by the size optimiser is otherwise never executed here)
 par gcc -c -Os $CF $REPO/igris/util/crc.c -o $BUILD/crc_os.o
-par g++ -std=c++17 -O2 -c -I$MC $MC/mc.cpp -o $BUILD/mc.o
+par g++ -std=c++20 -O2 -c -I$MC $MC/mc.cpp -o $BUILD/mc.o
 # re-entrancy run: crc.c under ThreadSanitizer, two threads on the controlled scheduler (sched.cpp and mc.cpp stay
 # uninstrumented: TSan then sees only what the code under test does)
 TF="-O1 -g -fsanitize=thread -fno-omit-frame-pointer -I$REPO -I$MC"
 par gcc -c $TF $REPO/igris/util/crc.c -o $BUILD/crc_tsan.o
-par g++ -std=c++17 -c $TF $VERIF/harness/c17/c17_reentrancy.cpp -o $BUILD/h_tsan.o
-par g++ -std=c++17 -O2 -g -I$MC -c $MC/sched/sched.cpp -o $BUILD/sched.o
+par g++ -std=c++20 -c $TF $VERIF/harness/c17/c17_reentrancy.cpp -o $BUILD/h_tsan.o
+par g++ -std=c++20 -O2 -g -I$MC -c $MC/sched/sched.cpp -o $BUILD/sched.o
 parwait
 g++ -fsanitize=thread $BUILD/h_tsan.o $BUILD/crc_tsan.o $BUILD/sched.o $BUILD/mc.o -ldl -lpthread -o $BUILD/c17_tsan
 clang++ -fsanitize=address $BUILD/h.o $BUILD/crc.o $BUILD/mc.o -o $BUILD/c17
